@@ -4,6 +4,7 @@ import (
 	"fmt"
 	"strconv"
 	"strings"
+	"sync"
 
 	"github.com/bfenetworks/bfe/bfe_balance/backend"
 	"github.com/bfenetworks/bfe/bfe_balance/bal_gslb"
@@ -257,6 +258,77 @@ func c01Check(r *vkit.Run, c *c01Case, g *vkit.Rand) {
 	}
 }
 
+// c01Transient is reported, not asserted: after an Update that CHANGES weights
+// the credits are off the exact orbit; how many picks until every later window
+// of W' picks is exact again?
+type c01TransientStat struct {
+	mu        sync.Mutex
+	Cases     int     `json:"cases"`
+	ExactAt0  int     `json:"exact_from_the_update_on"`
+	NeverSeen int     `json:"not_exact_again_within_10_periods"`
+	MaxOverW  float64 `json:"max_transient_picks_over_W"`
+}
+
+func c01Transient(r *vkit.Run, st *c01TransientStat, g *vkit.Rand) {
+	ws := c01RandWeights(g)
+	ws2 := make([]int, len(ws))
+	W2 := 0
+	for i := range ws {
+		ws2[i] = g.Range(1, 12)
+		W2 += ws2[i]
+	}
+	specs := specsFromWeights(ws, false)
+	specs2 := specsFromWeights(ws2, false)
+	brr := bal_slb.NewBalanceRR("sub")
+	var seq []int
+	if try(r, func() interface{} { return map[string]interface{}{"weights": ws, "new_weights": ws2} }, func() {
+		brr.Init(confOf(specs))
+		for k := g.Intn(3 * len(ws) * 12); k > 0; k-- {
+			brr.Balance(bal_slb.WrrSmooth, nil)
+		}
+		brr.Update(confOf(specs2))
+		for k := 0; k < 11*W2; k++ {
+			b, err := brr.Balance(bal_slb.WrrSmooth, nil)
+			if err != nil {
+				return
+			}
+			seq = append(seq, c01Index(b))
+		}
+	}) || len(seq) < 11*W2 {
+		return
+	}
+	// last window start whose count vector is wrong
+	lastBad := -1
+	cnt := make([]int, len(ws2))
+	for t, x := range seq {
+		cnt[x]++
+		if t >= W2 {
+			cnt[seq[t-W2]]--
+		}
+		if t >= W2-1 {
+			for i := range cnt {
+				if cnt[i] != ws2[i] {
+					lastBad = t - W2 + 1
+					break
+				}
+			}
+		}
+	}
+	st.mu.Lock()
+	st.Cases++
+	switch {
+	case lastBad < 0:
+		st.ExactAt0++
+	case lastBad >= 9*W2:
+		st.NeverSeen++
+	default:
+		if v := float64(lastBad+1) / float64(W2); v > st.MaxOverW {
+			st.MaxOverW = v
+		}
+	}
+	st.mu.Unlock()
+}
+
 func c01RandWeights(g *vkit.Rand) []int {
 	n := g.Range(1, 8)
 	ws := make([]int, n)
@@ -365,4 +437,8 @@ func c01(r *vkit.Run) {
 			c01Check(r, &c01Case{Weights: ws, Down: down, Variant: "gslb", UpdateAt: -1, Periods: 4}, g)
 		}
 	})
+	// reported only (see the scope decision in the rule)
+	st := &c01TransientStat{}
+	vkit.Parallel(r.N(500, 5000), 0, func(i int) { c01Transient(r, st, r.Rng("transient", i)) })
+	r.Extra("after_weight_changing_update_reported_not_asserted", st)
 }
